@@ -186,6 +186,15 @@ def queries(tier):
     # T7: higher-order reference
     qs.append(_q("hist.T7.aa", "T7", [{"variants": A}, {"variants": A}]))
     qs.append(_q("hist.T7.ab", "T7", [{"variants": A}, {"variants": B}]))
+    # T10: variable read through a module alias, multi-line keep call with run-time argument, lambda, nested def, dds_function
+    F10 = {"L": [1, 1], "Q": [2, 2], "R": [3, 3]}
+    for var in (("Q",) if tier == "quick" else ("L", "Q", "R")):
+        fx = dict((k, v) for k, v in F10.items() if k != var)
+        qs.append(_q("hist.T10.%s" % var, "T10", [{}, {}], timeout=600, fixed=fx))
+    for v in ("bd" if tier == "quick" else "bcd"):
+        qs.append(_q("hist.T10.a%s" % v, "T10", [{"variants": A}, {"variants": {"tq.m1": v}}], timeout=600, fixed=F10))
+    if tier == "thorough":
+        qs.append(_q("hist.T10.m2b", "T10", [{}, {"variants": {"tq.m2": "b"}, "restart": True}], timeout=600, fixed=F10))
     if tier == "thorough":
         # every leaf type x (edit of a callee, revert, entry-style switch + unrelated edits, restart); longer / non-ASCII strings
         for lt in ["int", "str", "bool", "float", "list", "tuple", "dict", "none", "path", "str3", "ustr"]:
